@@ -32,12 +32,14 @@ def maxwell_boltzmann_distribution(
         * np.sqrt(atoms.get_masses() * temperature)[:, None]
     )
 
+    scale = 1.0
+
     if forced:
         real_temperature = (
             2 * atoms.get_kinetic_energy() / atoms.get_number_of_degrees_of_freedom()
-        ) + 1.0e-15
-        scale = np.sqrt(temperature / real_temperature)
-    else:
-        scale = 1.0
+        )
+
+        if real_temperature > 0.0:
+            scale = np.sqrt(temperature / real_temperature)
 
     atoms.set_momenta(atoms.get_momenta() * scale)
